@@ -358,6 +358,16 @@ func runC15(r *report.Run) {
 			)
 		}
 	}
+	// long programs (120 and 300 calls)
+	for _, v := range variants {
+		for salt, n := range []int{120, 300} {
+			sweep = append(sweep, dl{v, opNames(asmLongProgram(n, salt)), 16384})
+		}
+		if v.Base == 0x008000 && v.Pre == 0 {
+			// ... and one whose listings run to well over 64 KiB of text
+			sweep = append(sweep, dl{v, opNames(asmLongProgram(2500, 3)), 1 << 17})
+		}
+	}
 	// data blocks that alias the target buffer and overlap their destination
 	for _, v := range variants {
 		for _, n := range []int{1, 8, 16, 17, 33} {
